@@ -214,7 +214,8 @@ def check(run, res, bound):
             if op.exited_at - t_trig > bound + TOL:
                 res.fail('C20/exit-too-late', f'{trig} at t={t_trig}: the run call returned at t={op.exited_at}, later than the bound of {bound:.1f}s')
             want = {'stop': 'ok', 'cancel': 'cancelled'}.get(trig, 'exc')
-            if op.exit[0] != want and not (trig == 'stop' and during_startup and op.exit[0] in ('ok', 'exc')):
+            if op.exit[0] != want and not (trig == 'stop' and during_startup and op.exit[0] in ('ok', 'exc')) \
+                    and not (will_fail and during_startup and op.exit[0] == 'exc'):      # (asked to go while the failed startup was returning)
                 res.fail('C20/wrong-outcome', f'{trig} at t={t_trig}: the run call ended with {op.exit}, expected {want}')
             if want == 'exc' and op.exit[0] == 'exc' and op.exit[1] != 'WatchingError':
                 res.fail('C20/failure-not-reraised', f'{trig} at t={t_trig}: the run call raised {op.exit}, not the stream\'s failure')
